@@ -243,6 +243,16 @@ def pytask_execute_task_teardown(session: Session, task: PTask) -> None:
     if is_task_generator(task):
         return
 
+    # A dependency (or the module of the task) that vanished while the task ran, for
+    # example because the task moved its own input away, has no state which could be
+    # stored in the database. The task fails instead of the whole build being aborted.
+    dag = session.dag
+    for signature in (*dag.predecessors(task.signature), task.signature):
+        node = dag.nodes[signature].get("task") or dag.nodes[signature].get("node")
+        if not isinstance(node, PProvisionalNode) and not node.state():
+            msg = f"{task.name!r} requires node {node.name!r} which vanished while it ran."
+            raise NodeNotFoundError(msg)
+
     collect_provisional_products(session, task)
     missing_nodes = [node for node in tree_leaves(task.produces) if not node.state()]
     if missing_nodes:
